@@ -76,7 +76,17 @@ func (n *Native) Close() {
 	}
 }
 
+func appendConfirmed(l []ConfirmedViolation, v Violation, nat string) []ConfirmedViolation {
+	for _, c := range l {
+		if c.V.Label == v.Label {
+			return l
+		}
+	}
+	return append(l, ConfirmedViolation{V: v, Native: nat})
+}
+
 type batchItem struct {
+	Lenient bool           `json:"lenient,omitempty"`
 	ID      int            `json:"id"`
 	Harness string         `json:"harness"`
 	Tier    string         `json:"tier"`
@@ -200,7 +210,32 @@ func confirmAndValidate(n *Native, res *HarnessResult, tier string, seed int64) 
 		refs[id] = ref{pass: &res.Passes[k]}
 		id++
 	}
+	// concolic fallback: paths the engine could not encode to the end are replayed natively on a model of the path
+	// condition up to that point (draws beyond it take default values); a failing native run is a real counterexample
+	nUns := len(res.Unsupported)
+	if nUns > 200 {
+		nUns = 200
+	}
+	unsFrom := id
+	for k := 0; k < nUns; k++ {
+		items = append(items, batchItem{ID: id, Harness: res.Spec.Name, Tier: tier, Bounds: res.Bounds, Witness: res.Unsupported[k].Witness, Lenient: true})
+		id++
+	}
 	got := n.runBatch(items)
+	for k := unsFrom; k < id; k++ {
+		res.ConcolicRuns++
+		u := res.Unsupported[k-unsFrom]
+		_, failed, panicked := normTrace(got[k])
+		for _, f := range failed {
+			v := Violation{Label: f, Detail: "found by native replay of a solver-generated input on a path the engine could not encode to the end (" + u.Msg + ")", Witness: u.Witness}
+			res.Confirmed = appendConfirmed(res.Confirmed, v, "assert-FAILED "+f)
+		}
+		if panicked != "" && !strings.Contains(panicked, "fatal: native process died") {
+			v := Violation{Label: "panic: (native) " + truncate(panicked, 120), Detail: "native replay of a solver-generated input panicked on a path the engine could not encode (" + u.Msg + ")", Witness: u.Witness, IsPanic: true}
+			res.Confirmed = appendConfirmed(res.Confirmed, v, panicked)
+		}
+	}
+	id = unsFrom
 	confirmedLabel := map[string]bool{}
 	var pending []*Violation
 	for k := 0; k < id; k++ {
